@@ -10,6 +10,7 @@ Only property statements and non-vacuity examples; lemmas are in Proofs/C10.lean
   norm     : erase parentheses, flatten same-operator lists, collapse one-element lists, expand kind matchers
 -/
 import Dawgs.Proofs.C10Q
+import Dawgs.Proofs.C10P
 import Dawgs.Spec.C10Q
 namespace Dawgs.C10.Props
 open Dawgs.C10
@@ -415,6 +416,64 @@ example : validQ qExample = true ∧ cntQ qExample = 4 := ⟨rfl, rfl⟩
 example : paramToks (emitQ (liftQ 0 qExample)) = ["p0", "p1", "p2", "p3"] := by rfl
 example : ((prepareQ .live qExample).map (fun q => q.pattern)) =
     some [.node (some "s") [] none, .rel (some "r") ["A", "B"] none, .node none [] none] := by rfl
+
+/-! ### the parameter map on its way to the server (drivers/neo4j/query_rewrite.go, applied by neo4jTransaction.Query)
+
+`rewriteParams fix params pats`: `pats` are the parameters used as pattern properties of a MATCH, in order; every other
+`$` symbol of the text (`plains`) is left alone by the rewriter. The property: every symbol of the rewritten text is bound
+in the returned map, to the builder's value. -/
+
+/-- As the code is, the property is FALSE: when the only pattern-property parameters are empty maps, `rewritten` is set
+but the rewritten parameter map is never created, so the map sent is empty while the text still mentions `$p1`. -/
+theorem rewrite_loses_parameters :
+    rewriteParams false [("p0", PVal.props []), ("p1", PVal.val (7 : Nat))] ["p0"] = some ([], []) ∧
+    symsAfter ["p1"] [] = ["p1"] ∧ plookup ([] : PMap Nat) "p1" = none := ⟨rfl, rfl, rfl⟩
+
+/-- With hooks/C10-fix9 (`fix = true`), for ALL maps and pattern-property lists — empty, nil (= empty) or non-empty, in any
+mix — whose pattern parameters are maps and which use no reserved name: the rewrite succeeds, every other parameter keeps
+its value, and every new `{key: $fresh}` entry is bound to the value the builder's map had under that key. -/
+theorem rewrite_binds_all_fixed {V : Type} (params : PMap V) (pats : List String)
+    (hres : ∀ i, pbound params (fname i) = false)
+    (hpats : ∀ p ∈ pats, ∃ kvs, plookup params p = some (.props kvs)) :
+    ∃ entries m', rewriteParams true params pats = some (entries, m') ∧
+      (∀ s, s ∉ pats → (∀ i, s ≠ fname i) → plookup m' s = plookup params s) ∧
+      (∀ e ∈ entries, ∃ kvs v, plookup params e.1 = some (.props kvs) ∧ (e.2.1, v) ∈ kvs ∧ plookup m' e.2.2 = some (.val v)) :=
+  rewriteParams_fixed params pats hres hpats
+
+/-- the code as it is agrees with the repair whenever no pattern-property map is empty -/
+theorem rewrite_current_partial {V : Type} (params : PMap V) (pats : List String)
+    (hne : ∀ p ∈ pats, ∀ kvs, plookup params p = some (.props kvs) → kvs ≠ []) :
+    rewriteParams false params pats = rewriteParams true params pats := by
+  have h : ∀ (ps : List String) (st : RWState V), (∀ p ∈ ps, p ∈ pats) →
+      rewritePats false params ps st = rewritePats true params ps st := by
+    intro ps
+    induction ps with
+    | nil => intro st _; rfl
+    | cons p ps ih =>
+      intro st hsub
+      simp only [rewritePats]
+      cases hp : plookup params p with
+      | none => rfl
+      | some pv =>
+        cases pv with
+        | val v => rfl
+        | props kvs =>
+          cases kvs with
+          | nil => exact absurd rfl (hne p (hsub p (by simp)) [] hp)
+          | cons kv kvs => exact ih _ (fun q hq => hsub q (by simp [hq]))
+  simp only [rewriteParams, h pats _ (fun p hp => hp)]
+
+/-- the builder's names p0, p1, … are never reserved names, so `hres` holds for every QueryBuilder.Parameters -/
+theorem builder_names_not_reserved (i j : Nat) : pname i ≠ fname j := by
+  intro h
+  have h' := congrArg String.toList h
+  simp only [pname, fname, String.toList_append] at h'
+  have h1 : ("p" : String).toList = ['p'] := rfl
+  have h2 : ("_" : String).toList = ['_'] := rfl
+  rw [h1, h2] at h'
+  simp at h'
+
+example : (rewriteParams true [("p0", PVal.props []), ("p1", PVal.val (7 : Nat))] ["p0"]) = some ([], [("p1", PVal.val 7)]) := by rfl
 
 /-! ### non-vacuity -/
 example : valid wAndXor = true ∧ safe wAndXor = false := ⟨rfl, rfl⟩
